@@ -36,10 +36,12 @@ pub struct Knobs {
     pub base_packets: usize,
     /// offer every gap 4..1020 (256 choices) instead of the short menu {0, 4, 1000, 1016}
     pub full_gaps: bool,
+    /// for single-record clouds: the first data packet carries exactly this many stream bytes (0 = off)
+    pub first_packet_bytes: usize,
 }
 impl Knobs {
-    pub const NONE: Knobs = Knobs { packets: false, cuts: false, non_data_packets: false, gaps: false, order: false, proto_attrs: false, xml_lexical: false, max_packets: 1, base_packets: 1, full_gaps: false };
-    pub const ALL: Knobs = Knobs { packets: true, cuts: true, non_data_packets: true, gaps: true, order: true, proto_attrs: true, xml_lexical: true, max_packets: 3, base_packets: 1, full_gaps: true };
+    pub const NONE: Knobs = Knobs { packets: false, cuts: false, non_data_packets: false, gaps: false, order: false, proto_attrs: false, xml_lexical: false, max_packets: 1, base_packets: 1, full_gaps: false, first_packet_bytes: 0 };
+    pub const ALL: Knobs = Knobs { packets: true, cuts: true, non_data_packets: true, gaps: true, order: true, proto_attrs: true, xml_lexical: true, max_packets: 3, base_packets: 1, full_gaps: true, first_packet_bytes: 0 };
 }
 
 #[derive(Clone, Debug, Default)]
@@ -139,7 +141,7 @@ impl Enc<'_> {
         if !self.k.non_data_packets {
             return (false, 0);
         }
-        match self.ch.choose(&format!("extra-packet-{pos}"), 6) {
+        match self.ch.choose(&format!("extra-packet-{pos}"), 7) {
             0 => (false, 0),
             k @ (1 | 5) => {
                 // index packet: 16-byte header + entries of 16 bytes; k = 5: index level 1, two entries
@@ -159,7 +161,7 @@ impl Enc<'_> {
                 (true, len)
             }
             k => {
-                let len = [0, 0, 4, 8, 64, 0][k];
+                let len = [0, 0, 4, 8, 64, 0, 1000][k];
                 self.notes.push(format!("ignored packet of {len} bytes {pos}"));
                 self.log.push(2);
                 self.log.push(0);
@@ -194,7 +196,14 @@ impl Enc<'_> {
         // canonical packet count: the configured base, or as many as needed to keep every packet
         // well below the 64 KiB packet limit
         let needed = (total + 6 + 2 * c.proto.len()) / 48_000 + 1;
-        let mut npk = if total == 0 { 0 } else { self.k.base_packets.max(1).max(needed) };
+        let forced_first = if self.k.first_packet_bytes > 0 && c.proto.len() == 1 && total > self.k.first_packet_bytes { self.k.first_packet_bytes } else { 0 };
+        let mut npk = if total == 0 {
+            0
+        } else if forced_first > 0 {
+            1 + (total - forced_first + 47_999) / 48_000
+        } else {
+            self.k.base_packets.max(1).max(needed)
+        };
         if self.k.packets && total > 0 {
             let extra = self.ch.choose(&format!("cloud{ci}-extra-packets"), self.k.max_packets);
             if extra > 0 {
@@ -215,7 +224,12 @@ impl Enc<'_> {
                 } else {
                     // canonical: whole bytes of the first ceil(n*(j+1)/npk) points
                     let pts = (n * (j + 1) + npk - 1) / npk;
-                    let natural = (pts * w / 8).min(l).max(prev);
+                    let natural = if forced_first > 0 {
+                        // first packet of the forced size, the rest split evenly
+                        (forced_first + (l - forced_first) * j / (npk - 1)).min(l).max(prev)
+                    } else {
+                        (pts * w / 8).min(l).max(prev)
+                    };
                     if self.k.cuts && l > 0 {
                         // any byte position >= prev is legal; alternative a>0 means position (natural + a) mod (l+1), forced >= prev
                         let a = self.ch.choose(&format!("cloud{ci}-rec{r}-cut{j}"), l + 1);
